@@ -127,6 +127,14 @@ def _escape_invalid_xml_chars(text):
     return _invalid_re.subn(lambda c: u'U+{0:0=4}'.format(ord(c.group())), text)[0]
 
 
+def _xml_attribute(text):
+    """Make text usable as XML attribute value:
+    ElementTree escapes markup characters but does not care about
+    characters that are not allowed in XML documents (like control chars).
+    """
+    return _escape_invalid_xml_chars(_text(text))
+
+
 def escape_CDATA(text):  # pylint: disable=invalid-name
     # -- issue #510 escape text in CDATA
     # CDATA cannot contain the string "]]>" anywhere in the XML document.
@@ -291,7 +299,7 @@ class JUnitReporter(Reporter):
 
         suite = ElementTree.Element(u'testsuite')
         feature_name = feature.name or feature_filename
-        suite.set(u'name', u'%s.%s' % (classname, feature_name))
+        suite.set(u'name', _xml_attribute(u'%s.%s' % (classname, feature_name)))
 
         # -- BUILD-TESTCASES: From run_items (and scenarios)
         self._process_run_items_for(feature, report)
@@ -439,8 +447,8 @@ class JUnitReporter(Reporter):
             feature_name = self.make_feature_filename(feature)
 
         case = ElementTree.Element("testcase")
-        case.set(u"classname", u"%s.%s" % (classname, feature_name))
-        case.set(u"name", scenario.name or "")
+        case.set(u"classname", _xml_attribute(u"%s.%s" % (classname, feature_name)))
+        case.set(u"name", _xml_attribute(scenario.name or ""))
         case.set(u"status", scenario.status.name)
         case.set(u"time", _text(round(scenario.duration, 6)))
 
@@ -475,7 +483,7 @@ class JUnitReporter(Reporter):
                 message = u"Undefined Step: %s" % step.name.strip()
                 failure = ElementTree.Element(u"failure")
                 failure.set(u"type", u"undefined")
-                failure.set(u"message", message)
+                failure.set(u"message", _xml_attribute(message))
                 case.append(failure)
 
             # -- ALWAYS ADD TO THE REPORT:
@@ -514,7 +522,7 @@ class JUnitReporter(Reporter):
                    (step_text, step.location)
             message = _text(step.exception).strip()
             xml_element.set(u'type', step.exception.__class__.__name__)
-            xml_element.set(u'message', message)
+            xml_element.set(u'message', _xml_attribute(message))
             text += _text(step.error_message)
         else:
             # -- MAYBE: Hook failure before any step is executed.
@@ -523,7 +531,8 @@ class JUnitReporter(Reporter):
                 failure_type = scenario.exception.__class__.__name__
             xml_element.set(u'type', failure_type)
             # -- NOTE: No error_message exists if a cleanup function has failed.
-            xml_element.set(u'message', (scenario.error_message or u"").strip())
+            xml_element.set(u'message',
+                            _xml_attribute((scenario.error_message or u"").strip()))
             traceback_lines = traceback.format_tb(scenario.exc_traceback)
             traceback_lines.insert(0, u"Traceback:\n")
             text = _text(u"".join(traceback_lines))
